@@ -99,6 +99,23 @@ class SimSolver:
             elif kind == "missing":
                 if os.path.isfile(res):
                     os.remove(res)
+            elif kind == "mirror":
+                # not a failure: the solver legitimately lands on the OTHER branch of the squared rigid-offset equations of
+                # flippable hard modules (x_m - x_m_r)^2 == const: every rectangle of such a module is reflected about the
+                # module's centre on one axis
+                if os.path.isfile(res):
+                    import json as _json
+                    data = _json.load(open(res))
+                    ax = fault.get("axis", "x")
+                    for m in fault.get("modules", []):
+                        base = "%s_%s" % (ax, m.lower())
+                        if base in data:
+                            c = data[base][0]
+                            for key in list(data):
+                                if key.startswith(base + "_") and key[len(base) + 1:].isdigit():
+                                    data[key] = [2 * c - v for v in data[key]]
+                    with open(res, "w") as f:
+                        _json.dump(data, f)
             self.fired.append({"solve": k, "kind": kind})
             rec["fault"] = kind
         self.log.append(rec)
